@@ -47,3 +47,6 @@ func c09boilerplate(path, buildTag, genBy string) ([]byte, error) {
 }
 
 func c09fileType() *generator.DefaultFileType { return generator.NewGolangFile() }
+
+// c13mergedInit: v1's SnippetWriter has no Dup/Merge; never called (c04ver == 1)
+func c13mergedInit(c *generator.Context, w io.Writer, text string) error { return nil }
